@@ -54,7 +54,7 @@ def bounds(tier):
             "core_max_tokens": b["core_n"], "corpus": CORPUS, "corpus_edits": "every single-token deletion, insertion, replacement"}
 
 
-def shards(tier):
+def _shards_main(tier):
     b = BOUNDS[tier]
     out = [["full", lo, hi] for lo, hi in enumer.string_shards(len(ALPHA), b["n"], b["shards"])]
     if b["core_n"]:
@@ -135,7 +135,7 @@ def _case(acc, text, ntok):
                      {"text": text}, detail, sig=cls + ":" + (detail or "")[:60], exc=cls)
 
 
-def run_shard(shard, tier):
+def _run_shard_main(shard, tier):
     b = BOUNDS[tier]
     acc = Acc()
     kind, lo, hi = shard
@@ -159,7 +159,7 @@ def run_shard(shard, tier):
     return acc.result()
 
 
-def recheck(case, tier):
+def _recheck_main(case, tier):
     acc = Acc()
     _case(acc, case["text"], 1)
     return acc.disagreements
@@ -170,3 +170,45 @@ def snippet(d):
             "try:\n    print(list(hy.read_many(text)))\n"
             "except SyntaxError as e:\n    print('ok, Hy syntax error:', type(e).__name__)\n"
             "# any other exception type escaping here violates C18\n")
+
+
+# ---------------------------------------------------------------- reader reuse leg (E2: histories of two reads on ONE reader)
+def shards(tier):
+    return list(_shards_main(tier)) + [["reuse-leg"]]
+
+
+def _reuse_case(acc, t1, t2, how):
+    from mc.ref import rd_reuse
+    fresh, reused = rd_reuse.run_pair(t1, t2, how)
+    acc.states += 1
+    acc.transitions += 2
+    acc.traces += 1
+    acc.evaluations += 2
+    acc.nontrivial += 1
+    acc.outcome("reuse:" + fresh[0] + "/" + reused[0])
+    if reused[0] == "OTHER":
+        acc.disagree("reused-reader-raised-non-hy-error", {"reuse": [t1, t2, how]},
+                     f"after reading {t1!r} ({how}) with a HyReader, reading {t2!r} with the SAME reader gave {str(reused)[:200]}; a fresh reader gives {str(fresh)[:200]}",
+                     sig="reused-reader-raised-non-hy-error:" + reused[0], how=how)
+
+
+def run_shard(shard, tier):
+    if shard == ["reuse-leg"]:
+        from mc.util import Acc as _Acc
+        from mc.ref import rd_reuse
+        acc = _Acc()
+        for i, (t1, t2, how) in enumerate(rd_reuse.pairs()):
+            _reuse_case(acc, t1, t2, how)
+            if i % 487 == 0:
+                acc.sample({"first_source": t1, "second_source": t2, "first_read": how})
+        return acc.result()
+    return _run_shard_main(shard, tier)
+
+
+def recheck(case, tier):
+    if "reuse" in case:
+        from mc.util import Acc as _Acc
+        acc = _Acc()
+        _reuse_case(acc, *case["reuse"])
+        return acc.disagreements
+    return _recheck_main(case, tier)
